@@ -493,6 +493,9 @@ func Peers() []wm.NPPeer {
 		// matchLabels satisfied by the real w2 / ns1, the additional expression is not: the representative must stay
 		{NSSel: &wm.Sel{ML: map[string]string{"team": "a"}, ME: []wm.Req{{Key: "zone", Op: "Exists"}}}, Pod: ml("app", "b")},
 		{Pod: &wm.Sel{ML: map[string]string{"app": "b"}, ME: []wm.Req{{Key: "role", Op: "Exists"}}}},
+		// the same requirements with two expressions on one key, listed in both orders
+		{Pod: &wm.Sel{ME: []wm.Req{{Key: "tier", Op: "Exists"}, {Key: "tier", Op: "NotIn", Vals: []string{"db"}}}}},
+		{Pod: &wm.Sel{ME: []wm.Req{{Key: "tier", Op: "NotIn", Vals: []string{"db"}}, {Key: "tier", Op: "Exists"}}}},
 	}
 }
 
